@@ -471,8 +471,57 @@ def check_lookalike_defaults(kind, d1, d2, reuse):
         e2e.unload(mod)
 
 
+def check_multi_base(kind):
+    """Item = allOf [A, B] (B itself extends G) with required next to the allOf naming members of the first base, the second base
+    and the grandparent, among them a nullable array and a nullable enum: omitting a required plain member is rejected, null for
+    the nullable ones is accepted, the full instance is accepted"""
+    defs = {"A": {"type": "object", "properties": {"a": {"type": "integer"}}},
+            "G": {"type": "object", "properties": {"g": {"type": "integer"}}},
+            "B": {"allOf": [{"$ref": "#/definitions/G"}], "type": "object",
+                  "properties": {"tag": {"type": "string"}, "labels": {"type": ["array", "null"], "items": {"type": "string"}},
+                                 "level": {"type": ["string", "null"], "enum": ["lo", "hi", None]}}},
+            "Item": {"allOf": [{"$ref": "#/definitions/A"}, {"$ref": "#/definitions/B"}], "required": ["a", "tag", "g", "labels", "level"]}}
+    g = e2e.generate(json.dumps({"definitions": defs}), kind=kind, **parser_opts(PLAIN))
+    if not g.ok or kind == "msgspec.Struct":
+        return None
+    mod, err = e2e.load_module(g.text, kind)
+    if err:
+        return None
+    try:
+        make, get = make_api(kind, mod, "Item")
+        full = {"a": 1, "tag": "t", "g": 2, "labels": ["x"], "level": "lo"}
+        try:
+            make(dict(full))
+        except Exception as e:  # noqa: BLE001
+            return f"Item instance with all required members is rejected: {str(e)[:120]}"
+        for n in ("a", "tag", "g"):
+            d = dict(full)
+            d.pop(n)
+            try:
+                make(d)
+                return f"Item lists {n!r} (declared by {'the first base' if n == 'a' else 'the second base' if n == 'tag' else 'the base of the second base'}) in required but omitting it is accepted"
+            except Exception:  # noqa: BLE001
+                pass
+        for n in ("labels", "level"):
+            d = dict(full)
+            d[n] = None
+            try:
+                make(d)
+            except Exception as e:  # noqa: BLE001
+                return f"Item: null for the nullable inherited member {n!r} (re-listed as required) is rejected: {str(e)[:100]}"
+        return None
+    finally:
+        e2e.unload(mod)
+
+
 def falsify(ctx):
     rng = ctx.rng("fals")
+    for kind in KINDS[:2]:   # pydantic v2 / v1 (dataclass inheritance with defaults is C02-dataclass-default-order)
+        ctx.count("eval_e2e")
+        ctx.nontrivial(("multi-base", kind))
+        why = check_multi_base(kind)
+        if why:
+            ctx.violation(f"multi-base:{kind}", f"{kind}: {why}", {"multi_base": True, "kind": kind, "why": why})
     for kind in KINDS[:4]:
         for key in ("first-name", "@type", "class", "_x", "plain"):
             for with_base in (False, True):
@@ -544,6 +593,8 @@ def falsify(ctx):
 
 def replay_finding(ctx, f):
     r = f["replay"]
+    if "multi_base" in r:
+        return check_multi_base(r["kind"]) is not None
     if "required_part" in r:
         return check_required_part(r["kind"], *r["required_part"]) is not None
     if "lookalike" in r:
@@ -559,6 +610,10 @@ def replay(ctx, payload):
         return 1 if why else 0
     if "inherited_required" in r:
         why = check_inherited_required(r["kind"], r["opts"], r["inherited_required"])
+        print("replay:", why or "no violation")
+        return 1 if why else 0
+    if "multi_base" in r:
+        why = check_multi_base(r["kind"])
         print("replay:", why or "no violation")
         return 1 if why else 0
     if "required_part" in r:
